@@ -36,6 +36,7 @@ type c20SCase struct {
 	Init     [][]int   `json:"init"`   // ops applied sequentially before the threads start (sched mode)
 	Ops      [][]int   `json:"ops"`    // sequential mode
 	Progs    [][][]int `json:"progs"`  // sched mode
+	Post     [][]int   `json:"post"`   // ops applied sequentially after all threads finished (sched mode)
 	Sched    []int     `json:"sched"`
 	Seed     uint64    `json:"seed"`
 	Sticky   int       `json:"sticky"`
@@ -183,6 +184,7 @@ type c20Thread struct {
 	parked chan c20Park
 	at     c20Park
 	done   bool
+	locks  []string
 }
 
 type c20Sched struct {
@@ -206,6 +208,7 @@ type c20OpRec struct {
 	End    int     `json:"end"`   // scheduler step during which the op returned
 	Result [][]int `json:"result"`
 	Panic  string  `json:"panic"`
+	Locks  []string `json:"locks"` // lock acquisitions of eventstream.go this op went through ("Func/kind")
 }
 
 type c20TOut struct {
@@ -239,6 +242,7 @@ func c20RunSched(c c20SCase) c20TOut {
 			for k, op := range prog {
 				t.park(sc, "harness", "call")
 				rec := c20OpRec{Thread: t.id, Index: k, Op: op, Start: int(step.Load())}
+				t.locks = []string{}
 				func() {
 					defer func() {
 						if r := recover(); r != nil {
@@ -248,6 +252,7 @@ func c20RunSched(c c20SCase) c20TOut {
 					rec.Result = w.apply(op)
 				}()
 				rec.End = int(step.Load())
+				rec.Locks = t.locks
 				recMu.Lock()
 				out.Ops = append(out.Ops, rec)
 				recMu.Unlock()
@@ -257,6 +262,12 @@ func c20RunSched(c c20SCase) c20TOut {
 	}
 	queue.VerifHook = func(fn, kind string) { sc.cur.park(sc, fn, kind) }
 	defer func() { queue.VerifHook = nil }()
+	verifESHook = func(fn, kind string) {
+		t := sc.cur
+		t.locks = append(t.locks, fn+"/"+kind)
+		t.park(sc, fn, kind)
+	}
+	defer func() { verifESHook = nil }()
 	live := 0
 	for _, t := range ths {
 		t.at = <-t.parked
@@ -322,7 +333,20 @@ func c20RunSched(c c20SCase) c20TOut {
 		}
 	}
 	queue.VerifHook = nil
+	verifESHook = nil
 	if out.Aborted == "" {
+		for k, op := range c.Post {
+			rec := c20OpRec{Thread: -1, Index: k, Op: op, Start: 1000000 + 2*k, End: 1000000 + 2*k + 1}
+			func() {
+				defer func() {
+					if r := recover(); r != nil {
+						rec.Panic = fmt.Sprint(r)
+					}
+				}()
+				rec.Result = w.apply(op)
+			}()
+			out.Ops = append(out.Ops, rec)
+		}
 		for _, s := range w.subs {
 			all := [][]int{}
 			func() {
@@ -483,4 +507,65 @@ func TestVerifC20StreamStress(t *testing.T) {
 		runtime.GOMAXPROCS(old)
 		wr.put(round)
 	}
+}
+
+// ---------------------------------------------------------------- hand-over with real goroutines
+
+type c20Handover struct {
+	Rounds   int   `json:"rounds"`
+	Lost     int   `json:"lost"`      // the newcomer did not receive the event published after both calls returned
+	Stray    int   `json:"stray"`     // the leaver received it
+	BadCount int   `json:"bad_count"` // SubscribersCount != 1 after the hand-over
+	Dup      int   `json:"dup"`
+	FirstBad int   `json:"first_bad"`
+}
+
+// TestVerifC20StreamHandover: the only subscriber of a topic unsubscribes while a newcomer
+// subscribes, concurrently; after both calls returned one event is published: the newcomer must
+// receive exactly it, the leaver nothing, and the topic must have exactly one subscriber.
+func TestVerifC20StreamHandover(t *testing.T) {
+	wr := newVerifWriter(t, "c20_handover.jsonl")
+	defer wr.close()
+	rounds := verifEnvInt("VERIF_C20_HANDOVER", 3000)
+	res := c20Handover{Rounds: rounds, FirstBad: -1}
+	old := runtime.GOMAXPROCS(4)
+	defer runtime.GOMAXPROCS(old)
+	for r := 0; r < rounds; r++ {
+		st := New()
+		a, b := st.AddSubscriber(), st.AddSubscriber()
+		topic := c20Topic(r % 3)
+		st.Subscribe(a, topic)
+		var wg sync.WaitGroup
+		start := make(chan struct{})
+		wg.Add(2)
+		go func() { defer wg.Done(); <-start; st.Unsubscribe(a, topic) }()
+		go func() { defer wg.Done(); <-start; st.Subscribe(b, topic) }()
+		if r%2 == 0 {
+			runtime.Gosched()
+		}
+		close(start)
+		wg.Wait()
+		st.Publish(topic, r)
+		gb, ga := c20Drain(b), c20Drain(a)
+		bad := false
+		if len(gb) == 0 {
+			res.Lost++
+			bad = true
+		} else if len(gb) > 1 {
+			res.Dup++
+			bad = true
+		}
+		if len(ga) != 0 {
+			res.Stray++
+			bad = true
+		}
+		if st.SubscribersCount(topic) != 1 {
+			res.BadCount++
+			bad = true
+		}
+		if bad && res.FirstBad < 0 {
+			res.FirstBad = r
+		}
+	}
+	wr.put(res)
 }
